@@ -45,6 +45,11 @@ def pairs(ctx, rng, xr, ops):
     rec = ctx.rec
     x, f, th, dd, lnames, cls, dt = make(rng, xr)
     f32 = dt == "float32"
+    if rng.random() < 0.2:
+        # low sea states (Hs of centimetres and less, exact power-of-two rescaling): absolute thresholds hidden in a
+        # statistic show up when such a sea is scaled down further
+        x = (x * np.asarray(2.0 ** -int(rng.integers(10, 22)), dtype=x.dtype)).astype(x.dtype)
+        cls += "+low"
     aux = O.make_aux(rng, x, xr)
     E = x.values.astype("float64").reshape(-1, len(f), len(th))
     nondeg = all(nondegenerate(e) for e in E)
